@@ -403,21 +403,22 @@ def P(part, config="-", **kw):
 IO_PLANS = {
     "C13": {
         "quick": [P("roundtrip", c, len=3) for c in ("dir_NoLabel", "und_NoLabel", "dir_int", "und_int")] + [P("roundtrip", c, len=2) for c in ("dir_string", "und_string", "dir_double", "und_double")] +
-                 [P("format", len=2), P("names", len=3)],
+                 [P("format", len=2), P("names", len=3)] + [P("bigtext", c) for c in ("dir_NoLabel", "und_int", "dir_string")],
         "thorough": [P("roundtrip", c, len=4) for c in ("dir_NoLabel", "und_NoLabel")] + [P("roundtrip", c, len=3) for c in ("dir_int", "und_int", "dir_string", "und_string", "dir_double", "und_double")] +
-                    [P("format", len=3), P("names", len=4)],
+                    [P("format", len=3), P("names", len=4)] + [P("bigtext", c) for c in ("dir_NoLabel", "und_NoLabel", "dir_int", "und_int", "dir_string", "und_string", "dir_double")],
     },
     "C14": {
         "quick": [P("roundtrip", c, len=3) for c in ("dir_NoLabel", "und_NoLabel")] +
-                 [P("roundtrip", c, len=2) for c in ("dir_int", "und_int", "dir_u8", "und_i8", "dir_i16", "und_u32", "dir_i64", "und_u64", "dir_float", "und_char", "dir_double", "und_double")] + [P("unopenable")],
+                 [P("roundtrip", c, len=2) for c in ("dir_int", "und_int", "dir_u8", "und_i8", "dir_i16", "und_u32", "dir_i64", "und_u64", "dir_float", "und_char", "dir_double", "und_double")] + [P("unopenable")] + [P("bigbin", c) for c in ("dir_NoLabel", "und_NoLabel", "dir_i16", "und_u64", "dir_int")],
         "thorough": [P("roundtrip", c, len=4) for c in ("dir_NoLabel", "und_NoLabel")] +
-                    [P("roundtrip", c, len=3) for c in ("dir_int", "und_int", "dir_u8", "und_i8", "dir_i16", "und_u32", "dir_i64", "und_u64", "dir_float", "und_char", "dir_double", "und_double")] + [P("unopenable")],
+                    [P("roundtrip", c, len=3) for c in ("dir_int", "und_int", "dir_u8", "und_i8", "dir_i16", "und_u32", "dir_i64", "und_u64", "dir_float", "und_char", "dir_double", "und_double")] + [P("unopenable")] +
+                    [P("bigbin", c) for c in ("dir_NoLabel", "und_NoLabel", "dir_int", "und_int", "dir_u8", "und_i8", "dir_i16", "und_u32", "dir_i64", "und_u64", "dir_float", "dir_double")],
     },
     "C15": {
         "quick": [P("cuts", c, len=3) for c in ("dir_NoLabel", "und_NoLabel")] + [P("cuts", c, len=2) for c in ("dir_u8", "dir_int", "und_int", "und_double", "dir_i64", "dir_i16")] +
-                 [P("text", len=3)] + [P("bytes", "dir_NoLabel", len=9), P("bytes", "und_NoLabel", len=9), P("bytes", "dir_u8", len=10), P("bytes", "dir_i16", len=11)],
+                 [P("bigcuts", c) for c in ("dir_NoLabel", "und_NoLabel", "dir_int")] + [P("text", len=3)] + [P("bytes", "dir_NoLabel", len=9), P("bytes", "und_NoLabel", len=9), P("bytes", "dir_u8", len=10), P("bytes", "dir_i16", len=11)],
         "thorough": [P("cuts", c, len=4) for c in ("dir_NoLabel", "und_NoLabel")] + [P("cuts", c, len=3) for c in ("dir_u8", "dir_int", "und_int", "und_double", "dir_i64", "dir_i16", "und_u64", "dir_float")] +
-                    [P("text", len=4, shard=k, shards=8) for k in range(8)] + [P("bytes", "dir_NoLabel", len=17), P("bytes", "und_NoLabel", len=17), P("bytes", "dir_u8", len=18), P("bytes", "dir_i16", len=13), P("bytes", "und_int", len=13)],
+                    [P("bigcuts", c) for c in ("dir_NoLabel", "und_NoLabel", "dir_int", "und_int", "dir_u8", "dir_i64", "und_double")] + [P("text", len=4, shard=k, shards=8) for k in range(8)] + [P("bytes", "dir_NoLabel", len=17), P("bytes", "und_NoLabel", len=17), P("bytes", "dir_u8", len=18), P("bytes", "dir_i16", len=13), P("bytes", "und_int", len=13)],
     },
 }
 IO_RULE = {
